@@ -110,6 +110,8 @@ impl Flusher {
             .filter_map(|(et, evs)| if evs.is_empty() { None } else { Some(et) })
             .collect();
         if !non_empty_event_types.is_empty() {
+            #[cfg(feature = "sim-hooks")]
+            crate::sim_hooks::gate("flusher.before_index", format!("{:05}", segment_id)).await;
             let uids =
                 Self::resolve_uids_with(&registry, non_empty_event_types.into_iter()).await?;
             SegmentIndexBuilder {
